@@ -629,6 +629,14 @@ def c02_10(ctx):
     return memo_obligation(ctx, ["pecc"], "a signature accepted once would be accepted for another message / key")
 
 
+def c02_11(ctx):
+    """the key range and the scalar multiplication BIP340 signing / verification rest on: every secret in [1, n-1] is a key,
+    and k*P reduces k mod n and is total (shared with C01.6 / C03.13)"""
+    from rules.C01 import c01_6
+    from rules.C03 import c03_13
+    return c01_6(ctx) + c03_13(ctx)
+
+
 OBLIGATIONS = [
     ("C02.10", "MEMO", c02_10),
     ("C02.1", "TABLE+SIBLING", c02_1),
@@ -640,5 +648,6 @@ OBLIGATIONS = [
     ("C02.7", "LAYOUT preimage", c02_7),
     ("C02.8", "DATAFLOW parity", c02_8),
     ("C02.9", "LAYOUT codec", c02_9),
+    ("C02.11", "RANGE+DATAFLOW scalar discipline", c02_11),
 ]
 FLOORS = {"C02.1": 21, "C02.3": 2, "C02.4": 4, "C02.6": 4, "C02.7": 3, "C02.8": 5, "C02.9": 2}
